@@ -21,6 +21,7 @@ use crate::net::fault::{Action, Rule, Side};
 use crate::net::rig::{self, Pair, PairSpec, state_name};
 use crate::net::wire::{self, DClass};
 use crate::refimpl::dtls_hs as hs;
+use crate::refimpl::foreign_certs::{self, LeafKind};
 use bytes::Bytes;
 use parking_lot::Mutex;
 use proptest::prelude::*;
@@ -71,6 +72,15 @@ pub struct TCase {
     pub g: u8,
     /// the server flight presented to the victim, in sending order
     pub flight: Vec<Slot>,
+    /// kind of the PINNED certificate. P-256: the genuine server's own. Any other kind: a
+    /// certificate nobody holds the key of; `Item::Cert` then replays it byte for byte and the
+    /// genuine server's ServerKeyExchange is just some other key's signature.
+    #[serde(default)]
+    pub leaf: LeafKind,
+}
+
+fn pinned_leaf(c: &TCase) -> Vec<u8> {
+    c02::identity(c.g, c.leaf).certificate[0].clone()
 }
 
 fn control_flight() -> Vec<Slot> {
@@ -173,6 +183,10 @@ impl Mitm {
                     cur_sr = genuine_sr;
                     (hs::HT_SERVER_HELLO, hs::with_seq(&sh.raw, seq))
                 }
+                Item::Cert if self.case.leaf != LeafKind::P256 => (
+                    hs::HT_CERTIFICATE,
+                    hs::build_hs(hs::HT_CERTIFICATE, seq, &hs::certificate_body(&[pinned_leaf(&self.case)])),
+                ),
                 Item::Cert => (hs::HT_CERTIFICATE, hs::with_seq(&cert.raw, seq)),
                 Item::Ske => (hs::HT_SERVER_KEY_EXCHANGE, hs::with_seq(&ske.raw, seq)),
                 Item::Shd => (hs::HT_SERVER_HELLO_DONE, hs::with_seq(&shd.raw, seq)),
@@ -411,7 +425,7 @@ async fn run_takeover(c: &TCase, tm: Timing) -> anyhow::Result<TObserved> {
         }
     }
     let g = c02::genuine(c.g);
-    let f = hs::sdp_fingerprint(&g.certificate[0]);
+    let f = hs::sdp_fingerprint(&pinned_leaf(c));
     for _attempt in 0..4 {
         let spec = PairSpec {
             dgram_rules: rules.clone(),
@@ -554,6 +568,9 @@ fn share_signed(f: &str, a: &Analysis, share: &[u8]) -> bool {
 }
 
 fn shape_labels(c: &TCase, rec: &CaseRec) {
+    if c.leaf != LeafKind::P256 {
+        rec.label(format!("takeover:pinned-leaf={:?}", c.leaf));
+    }
     let pos = |i: Item| c.flight.iter().position(|s| s.item == i);
     let first_att_ske = c.flight.iter().position(|s| matches!(s.item, Item::AttackerSke(_)));
     if c.flight == control_flight() {
@@ -605,8 +622,8 @@ fn judge(c: &TCase, o: &TObserved, tm: Timing, rec: &CaseRec) -> Check {
     if !o.flight_sent {
         rec.label("takeover:no-genuine-flight-obtained");
     }
-    rec.set_nontrivial(c.flight != control_flight() && o.flight_sent);
-    let f = hs::sdp_fingerprint(&c02::genuine(c.g).certificate[0]);
+    rec.set_nontrivial((c.flight != control_flight() || c.leaf != LeafKind::P256) && o.flight_sent);
+    let f = hs::sdp_fingerprint(&pinned_leaf(c));
     let from_v: Vec<&Bytes> = o.from_victim.iter().collect();
     let a = c02::analyse_datagrams(&o.v_in, &from_v);
     let connected = o.ever_connected;
@@ -615,8 +632,8 @@ fn judge(c: &TCase, o: &TObserved, tm: Timing, rec: &CaseRec) -> Check {
     }
     let describe = |what: &str| {
         format!(
-            "{what}; flight={:?} states={:?} final={} ever_connected={} ekm_ok={} app_records={} party: took_over={} relayed={} notes={:?}",
-            c.flight, o.states, o.final_state, connected, o.ekm_ok, o.app.len(), o.took_over, o.relayed, o.notes
+            "{what}; pinned leaf={:?} flight={:?} states={:?} final={} ever_connected={} ekm_ok={} app_records={} party: took_over={} relayed={} notes={:?}",
+            c.leaf, c.flight, o.states, o.final_state, connected, o.ekm_ok, o.app.len(), o.took_over, o.relayed, o.notes
         )
     };
     // 1. the key share behind the victim's keys must have been signed by the pinned key
@@ -736,7 +753,15 @@ pub fn grid() -> Vec<TCase> {
     }
     let mut out = Vec::new();
     for (i, f) in shapes.into_iter().enumerate() {
-        out.push(TCase { g: (i % 5) as u8, flight: f });
+        out.push(TCase { g: (i % 5) as u8, flight: f, leaf: LeafKind::P256 });
+    }
+    // a pinned certificate whose key cannot vouch for anything, replayed byte for byte, with the
+    // party's own share under every signature kind - and with the genuine server's SKE (relay)
+    for (i, leaf) in foreign_certs::FOREIGN.into_iter().enumerate() {
+        for k in SIGS {
+            out.push(TCase { g: (i % 5) as u8, leaf, flight: flight(&[(Sh, false), (Cert, false), (AttackerSke(k), false), (Shd, false)]) });
+        }
+        out.push(TCase { g: (i % 5) as u8, leaf, flight: control_flight() });
     }
     out
 }
@@ -764,8 +789,9 @@ pub fn case_strategy() -> impl Strategy<Value = TCase> {
         0..5u8,
         prop::collection::vec((item_strategy(), any::<u16>(), prop::bool::weighted(0.2)), 1..=3),
         prop_oneof![6 => Just(None), 2 => Just(Some(2usize)), 1 => Just(Some(1usize)), 1 => Just(Some(3usize)), 1 => Just(Some(0usize))],
+        prop_oneof![4 => Just(LeafKind::P256), 1 => prop::sample::select(foreign_certs::FOREIGN.to_vec())],
     )
-        .prop_map(|(g, extras, remove)| {
+        .prop_map(|(g, extras, remove, leaf)| {
             let mut f: Vec<Slot> = control_flight();
             if let Some(r) = remove {
                 f.remove(r);
@@ -776,7 +802,7 @@ pub fn case_strategy() -> impl Strategy<Value = TCase> {
                     f.insert(i + k, Slot { item, collide: collide && k == 0 && i > 0 });
                 }
             }
-            TCase { g, flight: f }
+            TCase { g, flight: f, leaf }
         })
 }
 
